@@ -6,6 +6,8 @@ import PPLV.Interval.ProofsRefine
 import PPLV.Interval.ProofsLF
 import PPLV.Interval.ProofsWiden
 import PPLV.Interval.ProofsWrap
+import PPLV.Interval.ProofsLinearize
+import PPLV.Interval.ProofsFloatModel
 import Mathlib.Tactic.NormNum
 /-!
 # C12 — interval arithmetic encloses every concrete result
@@ -283,6 +285,92 @@ example : lfMem Policy.rational (lfAdd Policy.rational Rounding.id
     (by simp [lfMem, Iv.mem, lowerOk, upperOk, getOpen, Policy.rational]; norm_num)
     (by simp [lfMem, Iv.mem, lowerOk, upperOk, getOpen, Policy.rational])
     (by simp [Iv.mem, lowerOk, upperOk, getOpen, Policy.rational])).1
+
+/-! ## linear forms on a concrete store, `relative_error`, `intervalize`, `linearize`
+
+`lfEvalMem pol F ρ v`: `v` is the value on the store `ρ` of some instance of the interval linear
+form `F`.  The analysed machine is the *stated float model*: every arithmetic operation returns
+`fl(exact)` with `|fl v − v| ≤ ε_f·|v| + ω_f` (`FloatModel`), `ε_f = 2^-MANTISSA_BITS`,
+`ω_f = 2^(1 − EXPONENT_BIAS − MANTISSA_BITS)` of `Float_defs.hh` — satisfied by round-to-nearest,
+upwards, downwards and towards zero of a binary format while no operation overflows; negation is
+exact. -/
+
+
+/-- The float model is met by the exact directed roundings of a binary format with `prec`
+significand bits (hidden bit included: `prec - 1 = MANTISSA_BITS`) and least normal exponent
+`emin = 1 - EXPONENT_BIAS`: inside the finite range, `down v` and `up v` are within
+`2^-(prec-1)·|v| + 2^(emin-prec+1)` of `v`.  Round-to-nearest and round-towards-zero return one of
+the two, so all four rounding modes of the analysed machine satisfy `FloatModel` on every
+operation that does not overflow. -/
+theorem float_model_of_directed_rounding (prec : Nat) (hprec : 1 ≤ prec) (emin emax : Int) (v d : Rat)
+    (hrange : |v| ≤ Rounding.maxFinite prec emax)
+    (h : (Rounding.float prec emin emax).down v = fin d ∨ (Rounding.float prec emin emax).up v = fin d) :
+    |d - v| ≤ Rounding.pow2 (-((prec : Int) - 1)) * |v| + Rounding.pow2 (emin - (prec : Int) + 1) :=
+  float_model_directed prec hprec emin emax v d hrange h
+
+example : (Rounding.float 24 (-126) 127).down (1 / 10) = fin (13421772 / 134217728) := by decide +kernel
+
+/-- `f1 += f2`, `f1 -= f2`, `f *= n`, `f /= n` (divisor member non-zero), `f += n`, `negate()`
+on the values of the forms on a store -/
+theorem lf_compound_encloses (pol : Policy) (R : Rounding) (hR : R.Sound) (rho : Nat → Rat)
+    (F G : List Iv) (N : Iv) (a b n : Rat)
+    (hF : lfEvalMem pol F rho a) (hG : lfEvalMem pol G rho b) (hn : N.mem pol n) :
+    lfEvalMem pol (lfAddAssign pol R F G) rho (a + b) ∧ lfEvalMem pol (lfSubAssign pol R F G) rho (a - b)
+      ∧ lfEvalMem pol (lfMulAssign false pol R F N) rho (a * n)
+      ∧ (n ≠ 0 → lfEvalMem pol (lfDivAssign pol R F N) rho (a / n))
+      ∧ (F ≠ [] → lfEvalMem pol (lfAddConst pol R F N) rho (a + n))
+      ∧ lfEvalMem pol (lfNegate pol R F) rho (-a) :=
+  ⟨lfEvalMem_add hR hF hG, lfEvalMem_sub hR hF hG, lfEvalMem_mul hR hF hn,
+   fun h0 => lfEvalMem_div hR hF hn h0, fun hne => lfEvalMem_addConst hR hne hF hn, lfEvalMem_neg hR hF⟩
+
+/-- `intervalize`: the interval contains every value of the form on every store inside the box -/
+theorem intervalize_encloses (pol : Policy) (R : Rounding) (hR : R.Sound) (rho : Nat → Rat) (store : List Iv)
+    (hstore : ∀ (k : Nat) (S : Iv), store[k]? = some S → S.mem pol (rho k))
+    (F : List Iv) (v : Rat) (I : Iv) (hv : lfEvalMem pol F rho v)
+    (h : intervalize false pol R store F = some I) : I.mem pol v :=
+  intervalize_sound hR hstore hv h
+
+/-- `relative_error`: for a form without unbounded coefficients, every value `a` of the form on the
+store and every rounding error `t = fl(a) − a` with `|t| ≤ ε_f·|a|`: `t` is a value of the
+relative-error form on the store (the coefficients are scaled with the LARGEST magnitude of each
+interval coefficient, which is what makes this true). -/
+theorem relative_error_encloses (pol : Policy) (R : Rounding) (hR : R.Sound) (eps : Rat) (heps : 0 ≤ eps)
+    (rho : Nat → Rat) (F : List Iv) (a t : Rat) (hb : lfOverflows pol F = false)
+    (ha : lfEvalMem pol F rho a) (ht : |t| ≤ eps * |a|) :
+    lfEvalMem pol (relativeError false pol R eps F) rho t :=
+  relativeError_encloses hR heps hb ha ht
+
+example : relativeError false Policy.floating Rounding.double (1 / 4) [⟨⟨fin (-3), false⟩, ⟨fin 1, false⟩⟩, Iv.point 2]
+    = [Iv.sym (3 / 4), Iv.sym (1 / 2)] := by decide +kernel
+
+/-- **soundness of `linearize`** (constants, variables with or without an entry in the linear-form
+abstract store, unary minus, `+`, `−`, `×`, `÷`; structural induction): if `linearize` answers `true`
+with the form `F`, then for every concrete store `ρ` inside the abstract store and every machine
+satisfying the float model — in particular each of the four rounding modes — the value the machine
+computes for the expression is a value of `F` on `ρ`.  A `false` answer (division by an interval
+that may contain zero, unbounded coefficients, unbounded operands of a product) claims nothing. -/
+theorem linearize_sound (pol : Policy) (R : Rounding) (fm : FFormat) (store : List Iv)
+    (lfStore : Nat → Option (List Iv)) (rho : Nat → Rat) (fl : Rat → Rat)
+    (H : LinHyps pol R fm store lfStore rho) (hfl : FloatModel fm fl)
+    (e : FExpr) (F : List Iv) (hw : e.WF pol) (h : linearize false pol R fm store lfStore e = some F) :
+    lfEvalMem pol F rho (e.ceval fl rho) :=
+  PPLV.Interval.linearize_sound H hfl e F hw h
+
+/-- the hypothesis `neg_bounded` of `LinHyps` holds for exact rounding -/
+theorem neg_bounded_exact (pol : Policy) (x : Iv) (h : isBounded pol x = true) :
+    isBounded pol (negAssign pol Rounding.id x) = true := by
+  obtain ⟨⟨v1, o1⟩, ⟨v2, o2⟩⟩ := x
+  obtain ⟨ss, so, mci, ci, mbe⟩ := pol
+  cases v1 <;> cases v2 <;> cases ss <;> cases so <;> cases mci <;> cases mbe <;> cases o1 <;> cases o2 <;>
+    simp_all [isBounded, isBoundaryInfinity, getSpecial, normalIsBoundaryInfinity, negAssign, checkEmptyArg, isEmpty,
+      Iv.empty, bNeg, adjust_id, ExtRat.neg, setBoundaryInfinity, infOf] <;>
+    split_ifs <;> simp_all [normalIsBoundaryInfinity]
+
+/-- non-vacuity: `x / 2` over `x ∈ [1,3]` linearizes, `1 / x` over `x ∈ [-1,1]` is refused -/
+example : (linearize false Policy.floating Rounding.double ⟨1 / 8388608, 1 / 4⟩ [Iv.closed 1 3] (fun _ => none)
+    (.div (.var 0) (.const (Iv.point 2) 2))).isSome = true := by decide +kernel
+example : linearize false Policy.floating Rounding.double ⟨1 / 8388608, 1 / 4⟩ [Iv.closed (-1) 1] (fun _ => none)
+    (.div (.const (Iv.point 1) 1) (.var 0)) = none := by decide +kernel
 
 /-! ## wrapping (defect 12) -/
 
